@@ -21,7 +21,7 @@ NewClient(lg, v111, http) ==
      pend |-> <<>>, nsub |-> <<>>, per |-> <<>>, grant |-> <<>>,
      tok |-> "nil", tokq |-> <<>>, dispW |-> <<>>, unsent |-> {},
      recheck |-> <<>>, owed |-> <<>>, stale |-> {}, intok |-> 0, trigc |-> <<>>,
-     gotByGet |-> <<>>, taintG |-> FALSE, taintU |-> FALSE, taintW |-> FALSE, dropped |-> <<>>, hUnsub |-> {},
+     gotByGet |-> <<>>, taintG |-> FALSE, taintU |-> FALSE, taintW |-> FALSE, dropped |-> <<>>, hUnsub |-> {}, strayGot |-> <<>>,
      lastTokT |-> 0, lastAcc |-> <<>>, tid |-> "", dispCalled |-> {}]
 
 InitO(tr) ==
@@ -58,7 +58,8 @@ RECURSIVE AnnClosure(_, _)
 AnnClosure(cl, S) ==
     LET N == S \cup UNION {UNION {Refs(e) : e \in AnnOf(o.ann, Get(o.norm, KeyOf(cl, x), KeyOf(cl, x))).cands} : x \in S}
     IN IF N = S THEN S ELSE AnnClosure(cl, N)
-PendOn(cl, x, oldH) == \E i \in DOMAIN cl.pend : (cl.pend[i].m \in {"subscribe", "get"} /\ cl.pend[i].rid \in oldH /\ x \in AnnClosure(cl, {cl.pend[i].rid}))
+PendOn(cl, x, oldH) == \E i \in DOMAIN cl.pend : (cl.pend[i].m \in {"subscribe", "get"} /\ (cl.pend[i].rid \in oldH \/ cl.pend[i].rid \in DOMAIN cl.dropped)
+                                                        /\ x \in AnnClosure(cl, {cl.pend[i].rid}))
                                                    \/ cl.pend[i].m \in {"call", "auth", "new"}
 
 (* after a message: keep only retained resources; open/close holding periods *)
@@ -83,8 +84,13 @@ ByGet(cl, d, reqL) == \A x \in d : Get(cl.gotByGet, x, 0) > reqL
 (* direct count, taken at request time, kept them in state sent.              *)
 ByDrop(cl, d, reqL) == \A x \in d : Get(cl.dropped, x, 0) > 0
 
+(* resources whose data the gateway delivered only inside a stray event that one of the findings explains: the client *)
+(* ignores such an event, the gateway considers the resources sent and omits them afterwards                         *)
+ByStray(cl, d) == d # {} /\ \A x \in d : x \in DOMAIN cl.strayGot
+
 KfOf(cl, d, reqL) ==
-    IF cl.taintU THEN "KF-U"
+    IF d # {} /\ ByStray(cl, d) THEN cl.strayGot[CHOOSE x \in d : TRUE]
+    ELSE IF cl.taintU THEN "KF-U"
     ELSE IF cl.taintG \/ (d # {} /\ ByGet(cl, d, reqL)) THEN "KF-G"
     ELSE IF cl.taintW \/ (d # {} /\ ByDrop(cl, d, reqL)) THEN "KF-W"
     ELSE ""
@@ -247,8 +253,12 @@ HandedOf(n) == Get(o.handed, n, <<>>)
 (* numbered, non-superseded events of n handed over with seq in (lo, hi) *)
 Between(n, lo, hi) == {h \in SeqToSet(HandedOf(n)) : h.seq > lo /\ h.seq < hi /\ ~h.sup}
 
+(* a change event that a reset re-fetch derived: it carries the number of an event the re-fetch superseded (C03's *)
+(* exception clause) and may follow later custom events                                                          *)
+Derived(cl, r) == r.ev = "change" /\ \E h \in SeqToSet(HandedOf(NameOf(cl, r.rid))) : h.seq = r.seq /\ h.sup
+
 SeqViol(cl, r) ==
-    IF r.seq = 0 \/ r.rid \notin DOMAIN cl.per \/ QueryOf(cl, r.rid) # "" THEN {}
+    IF r.seq = 0 \/ r.rid \notin DOMAIN cl.per \/ QueryOf(cl, r.rid) # "" \/ Derived(cl, r) THEN {}
     ELSE LET p == cl.per[r.rid]
              n == NameOf(cl, r.rid)
          IN (IF r.seq <= p.last
@@ -291,6 +301,9 @@ H_cev(r) ==
                         V("C03", r.ev \o " event for " \o r.rid \o " delivered while the client does not hold the resource (before it is handed over, or after it was released)", kfU)}
         res1 == SetRes(r.set) @@ cl1.res
         cur == Get(cl1.res, r.rid, ErrRes("none"))
+        \* data carried by a stray event that a finding explains / delivered properly again
+        sg1 == IF strayV # {} /\ kfU # "" THEN [x \in DOMAIN SetRes(r.set) |-> kfU] @@ cl1.strayGot
+               ELSE [x \in DOMAIN cl1.strayGot \ DOMAIN SetRes(r.set) |-> cl1.strayGot[x]]
         qlockV == IF r.seq = 0 THEN {}
                   ELSE LET n == NameOf(cl1, r.rid)
                            hs == {h \in SeqToSet(HandedOf(n)) : h.seq = r.seq}
@@ -298,7 +311,7 @@ H_cev(r) ==
                           THEN {V("C13", "event seq " \o ToString(r.seq) \o " on " \o r.rid \o " delivered while query requests of an earlier query event are unanswered", "")}
                           ELSE {}
         seqV == SeqViol(cl1, r) \cup RecheckViol(cl1, r) \cup qlockV
-        cl1s == SeqUpdate(cl1, r)
+        cl1s == [SeqUpdate(cl1, r) EXCEPT !.strayGot = sg1]
     IN
     CASE r.ev = "change" ->
             IF cur.k # "m"
@@ -568,7 +581,10 @@ Content(r) == IF r.kind = "m" THEN Model(r.val) ELSE Coll(r.list)
 
 AnnGet(a, r, refetch) ==
     CASE r.kind \in {"m", "c"} ->
-            IF a.st # "ld" THEN [st |-> "ld", cands |-> {Content(r)}]
+            \* the answer of a re-fetch is compared with loaded content only: it does not load a resource whose initial
+            \* get is still outstanding or has failed
+            IF refetch /\ a.st # "ld" THEN a
+            ELSE IF a.st # "ld" THEN [st |-> "ld", cands |-> {Content(r)}]
             ELSE IF \E e \in a.cands : e.k # r.kind THEN a
             ELSE IF refetch THEN [st |-> "ld", cands |-> {Content(r)}]
             ELSE [st |-> "ld", cands |-> a.cands \cup {Content(r)}]
